@@ -1139,6 +1139,9 @@ def __lshift__(self, other, start_pos=None):
             old_end = 0
             to_insert = []
             insert_pos = self.a_fiber.getShape(all_ranks=False, authoritative=True)
+            if insert_pos is None and is_collecting:
+                # No declared shape: stage insertions beyond the current extent
+                insert_pos = self.a_fiber.getShape(all_ranks=False)
             insert_start_pos = None
 
             for b_pos, (b_coord, b_payload) in enumerate(b):
